@@ -353,6 +353,20 @@ def build_models(interp):
             ax.syms.add(idx)
             interp.facts.append(sp.And(sp.Ge(idx, 0), sp.Le(idx, ax.n - 1), sp.Ge(ax.n, 1)))
             return A((ax,), idx, sp.true)
+        if len(a) == 3 and all(isinstance(x, (S, int, float)) for x in a):
+            # np.arange(start, stop, step): a fresh axis whose generic element is start + step*index;
+            # the same (start, stop, step) gives the same axis (signal and noise bins are aligned)
+            st, sp_, stp = (lift(x) for x in a)
+            reg_ = interp.__dict__.setdefault("arange_axes", {})
+            key = (st, sp_, stp)
+            if key not in reg_:
+                reg_[key] = sym.Axis("rng%d" % len(reg_))
+            ax = reg_[key]
+            idx = sp.Symbol("idx_" + ax.name, integer=True, nonnegative=True)
+            ax.syms.add(idx)
+            interp.facts.append(sp.And(sp.Ge(idx, 0), sp.Le(idx, ax.n - 1), sp.Gt(stp, 0),
+                                       sp.Lt(st + stp * (ax.n - 1), sp_), sp.Ge(st + stp * ax.n, sp_)))
+            return A((ax,), st + stp * idx, sp.true)
         raise Unsupported("np.arange with symbolic arguments %r" % (a,))
 
     reg(np.arange, m_arange)
@@ -379,6 +393,7 @@ def build_models(interp):
     reg(max, m_minmax("max"))
     reg(abs, lambda x: abs(x))
     reg(len, length_of)
+    reg(print, lambda *a, **k: None, always=True)
     reg(isinstance, m_isinstance)
     reg(np.size, lambda x: x.size)
     reg(np.shape, lambda x: x.shape)
